@@ -518,7 +518,8 @@ Definition nucs_of_iupac (c : ascii) : list nuc :=
 Definition restrict_nucleotides (sp : spec) (max_edits_percent_set : bool) (s : dna) : list choice :=
   match sp with
   | SAvoidChanges l idx _ me =>
-      if negb (me =? 0) || max_edits_percent_set then [] else
+      (* (the percent flag no longer matters: the decision is on max_edits, after the fix of F3) *)
+      if negb (me =? 0) then [] else
       match idx with
       | Some ix => map (fun i => rchoice i (i + 1) [pyslice s i (i + 1)])
                        (filter (fun i => (lstart l <=? i) && (i <? lend l)) ix)
